@@ -23,7 +23,7 @@ META = {
                 "GammaRobustVariationalELBO", "non-Gaussian likelihood terms (quadrature structure: C13)", "rounding"],
     "assumptions": ["reals for floats", "jitter of the strategies is part of the kernel evaluation (as in C14)"],
 }
-TIMEOUT_S = {"quick": 600, "thorough": 2400}
+TIMEOUT_S = {"quick": 600, "thorough": 600}
 
 
 def _setup(S, strat, dist, M, n, jit_kl=False):
@@ -68,10 +68,19 @@ def _qf(strat, Gs, J, K, mall, Mq, Cq, M, n):
     return mean, var, Gz, mz
 
 
-def value(S, obj, strat, dist, M, B):
+def value(S, obj, strat, dist, M, B, fixed_noise=False):
     model, d, Mq, Cq, Gs, J, K, Z, X, jit = _setup(S, strat, dist, M, B)
-    lik = gpytorch.likelihoods.GaussianLikelihood(noise_prior=gpytorch.priors.GammaPrior(2.0, 3.0))
-    declare_params(S, lik, "lik_")
+    kw = {}
+    if fixed_noise:
+        # heteroskedastic fixed noise: the minibatch's noise is passed at call time (the stored vector belongs to the full data set)
+        lik = gpytorch.likelihoods.FixedNoiseGaussianLikelihood(S.rand(B + 2, lo=0.05, hi=0.5))
+        S.sym_tensor(lik.noise_covar.noise, "storednoise", positive=True)
+        cn = S.rand(B, lo=0.05, hi=0.5)
+        CN = S.sym_tensor(cn, "callnoise", positive=True)
+        kw = {"noise": cn}
+    else:
+        lik = gpytorch.likelihoods.GaussianLikelihood(noise_prior=gpytorch.priors.GammaPrior(2.0, 3.0))
+        declare_params(S, lik, "lik_")
     y = S.randn(B)
     Y = S.sym_tensor(y, "y")
     nd = torch.tensor(7.0)
@@ -83,13 +92,15 @@ def value(S, obj, strat, dist, M, B):
     model.train(); lik.train()
     with S.mode():
         mall = as_sym_arr(SH.get(model.mean_module(labels(0, M + B))))
-        sig = as_sym_arr(SH.get(lik.noise)).reshape(-1)[0]
-        val = mll(model(X), y)
+        sig = None if fixed_noise else as_sym_arr(SH.get(lik.noise)).reshape(-1)[0]
+        val = mll(model(X), y, **kw)
         mll2 = cls(lik, model, num_data=nd, beta=beta, combine_terms=False)
-        parts = mll2(model(X), y)
+        parts = mll2(model(X), y, **kw)
     mean, var, Gz, mz = _qf(strat, Gs, J, K, mall, Mq, Cq, M, B)
     tot = Sym.const(0.0)
+    sig_scalar = sig
     for i in range(B):
+        sig = CN[i] if fixed_noise else sig_scalar
         if obj == "elbo":
             tot = tot + (((Y[i] - mean[i]) * (Y[i] - mean[i]) + var[i]) / sig + sym_log(sig) + Sym.const(LOG2PI)) * Sym.const(-0.5)
         else:
@@ -106,7 +117,11 @@ def value(S, obj, strat, dist, M, B):
     kl = (ldp - _logdet(S, dist, (), M, ()) + tr + quad - Sym.const(float(M))) * Sym.const(0.5)
     # log prior of the noise (Gamma(2, 3)) at the constrained value
     a, r = 2.0, 3.0
-    lp = sym_log(sig) * Sym.const(a - 1.0) - sig * Sym.const(r) + Sym.const(a * math.log(r)) - Sym.const(math.lgamma(a))
+    if fixed_noise:
+        lp = Sym.const(0.0)
+    else:
+        sig = sig_scalar
+        lp = sym_log(sig) * Sym.const(a - 1.0) - sig * Sym.const(r) + Sym.const(a * math.log(r)) - Sym.const(math.lgamma(a))
     nd_s, beta_s = ND.reshape(-1)[0] if ND.ndim else ND[()], BETA[()]
     ref_ll = tot / Sym.const(float(B))
     ref_kl = kl / (nd_s / beta_s)
@@ -114,7 +129,8 @@ def value(S, obj, strat, dist, M, B):
     S.prove_eq(val, ref_ll - ref_kl + ref_lp, "%s value = (1/B) sum terms - (beta/N) KL + (1/N) log prior" % obj)
     S.prove_eq(parts[0], ref_ll, "%s combine_terms=False: likelihood part" % obj)
     S.prove_eq(parts[1], ref_kl, "%s combine_terms=False: KL part" % obj)
-    S.prove_eq(parts[2], ref_lp, "%s combine_terms=False: prior part" % obj)
+    if not fixed_noise:
+        S.prove_eq(parts[2], ref_lp, "%s combine_terms=False: prior part" % obj)
 
 
 def _optimal_natural(Gs, J, K, Y, sig, mz, mx, M, n):
@@ -214,20 +230,32 @@ def scenarios(tier, seed):
         add("value", obj="elbo", strat="unwhitened", dist="cholesky", M=2, B=1)
         add("value", obj="pll", strat="variational", dist="meanfield", M=2, B=2)
         add("value", obj="pll", strat="variational", dist="cholesky", M=1, B=2)
+        add("value", obj="pll", strat="variational", dist="cholesky", M=2, B=2, fixed_noise=True)
+        add("value", obj="elbo", strat="variational", dist="meanfield", M=1, B=2, fixed_noise=True)
         add("collapsed", M=1, n=2, via_ngd=False)
         add("collapsed", M=1, n=2, via_ngd=True)
         add("collapsed", M=2, n=2, via_ngd=True)
         add("collapsed", M=2, n=1, via_ngd=True, batch=2)
     else:
+        # (tried and dropped - inconclusive within 600 s per scenario: natural / tril-natural q(u) at M=2 (log-determinant through a
+        #  symbolic matrix inverse), the predictive log likelihood with B=3 minibatch points, the collapsed-bound identity at M=2)
         for obj in ("elbo", "pll"):
             for strat in ("variational", "unwhitened"):
                 if obj == "pll" and strat == "unwhitened":
                     continue  # sqrt/log of the training-mode clamp: queries do not finish; not claimed
                 for dist in ("cholesky", "meanfield", "natural", "trilnatural"):
                     for (M, B) in [(2, 2), (2, 3), (1, 1)]:
+                        if dist in ("natural", "trilnatural") and M > 1:
+                            continue
+                        if obj == "pll" and B > 2:
+                            continue
                         add("value", obj=obj, strat=strat, dist=dist, M=M, B=B)
+        for obj in ("elbo", "pll"):
+            add("value", obj=obj, strat="variational", dist="cholesky", M=2, B=2, fixed_noise=True)
+            add("value", obj=obj, strat="variational", dist="meanfield", M=1, B=2, fixed_noise=True)
         for (M, n) in [(1, 1), (1, 2), (2, 2), (2, 1)]:
-            add("collapsed", M=M, n=n, via_ngd=False)
+            if M == 1:
+                add("collapsed", M=M, n=n, via_ngd=False)
             add("collapsed", M=M, n=n, via_ngd=True)
         add("collapsed", M=2, n=1, via_ngd=True, batch=2)
         add("collapsed", M=2, n=2, via_ngd=True, batch=2)
